@@ -195,7 +195,10 @@ func replayMut(line []byte, a *Acc) {
 				fmt.Sprintf("%s on %s: got %s (err=%v) post %s; spec %s post %s", desc, short(pre), got, err, short(post), c.Out, short(c.Post.Norm())))
 			continue
 		}
-		if c.Out == "ok" && post != pre {
+		// (a path with an empty segment is read differently by the query side -- a trailing empty segment is dropped there --
+		// so the read-back oracles below are for paths of non-empty keys; the comparison with the specification above is for all)
+		emptySeg := c.P == "" || strings.HasPrefix(c.P, ".") || strings.HasSuffix(c.P, ".") || strings.Contains(c.P, "..")
+		if c.Out == "ok" && post != pre && !emptySeg {
 			switch c.Op {
 			case "set":
 				v, e := mv.ValueForPath(c.P)
